@@ -1035,6 +1035,11 @@ impl<C: CellType> OptRebuild<'_, C> {
     ) -> HashMap<isize, Expr<C>> {
         let mut linear = HashMap::new();
         for var in vars {
+            // A variable that was already (partially) written in this iteration does
+            // not have its start-of-iteration value when the pending operations run.
+            if sub_state.written.contains_key(&var) {
+                continue;
+            }
             if let Some(complete) = sub_state.get(var) {
                 if let Some(inc) = complete.inc_of(var) {
                     if inc.variables().all(|x| constant.contains(&x)) {
